@@ -16,6 +16,10 @@ inductive Ev
   | hold (seq : Nat) (ok : Bool)
   | read (seq : Nat) (bytes : Option (List UInt8))
   | curBytes (seq : Nat) (bytes : List UInt8)
+  -- F: an HLS client scheduled inside a roll-over (`point` = listed / opened: on the generator's goroutine at that
+  -- schedule point; conc: a client goroutine of its own): the playlist it was served, the number of the newest
+  -- URI in it, what that URI delivered (none: not served)
+  | fetch (point : String) (m3u8 : Option (List Char)) (seq : Option Nat) (bytes : Option (List UInt8))
 
 def splitList (s : String) (sep : String) : List String :=
   if s = "-" ∨ s = "" then [] else s.splitOn sep
@@ -39,6 +43,13 @@ def parseEv (s : String) : Option Ev :=
     match seq.toNat? with
     | some n => if h = "ERR" then some (.read n none) else (hexToBytes h).map fun b => .read n (some b)
     | none => none
+  | ["F", point, m, seq, h] =>
+    let m3 := if m = "ERR" then some none else (hexToChars m).map some
+    let sq := if seq = "-" then some none else seq.toNat?.map some
+    let bs := if h = "ERR" then some none else (hexToBytes h).map some
+    match m3, sq, bs with
+    | some m3, some sq, some bs => some (.fetch point m3 sq bs)
+    | _, _, _ => none
   | ["C", seq, h] => match seq.toNat?, hexToBytes h with
     | some n, some b => some (.curBytes n b) | _, _ => none
   | _ => (parseAv s).map .frame
@@ -49,6 +60,7 @@ structure St where
   segs     : List (Nat × List UInt8)    -- S events so far (reversed): what the implementation served
   durs     : List (Nat × Int)           -- observed duration of every completed segment
   held     : List (Nat × List UInt8)    -- readers taken: the bytes the segment had then (from S)
+  fetched  : List (Nat × List UInt8)    -- F events: what a client inside a roll-over got for a listed number
   corr     : Option String              -- first model/implementation difference
   spec     : Option String              -- first specification failure
   panicked : Bool
@@ -131,6 +143,21 @@ def step (_p : IpcHub.TsSpec.Params) (m : Meta) (frag rate : Nat) (path token : 
     | some (_, b), some r => if r == b then st else noteSpec st "read-not-stable"
     | some _, none => noteSpec st "read-not-stable"
     | none, _ => st
+  | .fetch point m3 seq bytes =>
+    -- the playlist served at that moment is judged like every other served playlist; the newest URI in it
+    -- must deliver a segment (on the generator's own goroutine no further roll-over can fall between the two
+    -- requests; a client goroutine of its own only reports fetches that were served)
+    let st :=
+      match m3 with
+      | none => st
+      | some text =>
+        match IpcHub.HlsSpec.checkPlaylist 3 path token text with
+        | .error e => noteSpec st e
+        | .ok listed => if seq.isSome ∧ listed.getLast? ≠ seq then noteCorr st s!"rollover-client-newest-uri listed={listed} client={seq}" else st
+    match seq, bytes with
+    | some q, some b => { st with fetched := (q, b) :: st.fetched }
+    | some _, none => if point = "conc" then st else noteSpec st "segment-fetched-in-rollover-not-served"
+    | none, _ => st
   | .curBytes seq bytes =>
     let st := { st with segs := (seq, bytes) :: st.segs }
     match st.g with
@@ -166,6 +193,16 @@ def finalSpec (p : IpcHub.TsSpec.Params) (frag : Nat) (st : St) (complete : Bool
         if ¬ fails.contains cls then fails := fails ++ [cls]
       pes := pes ++ [sp]
   if ¬ IpcHub.HlsSpec.consecutive (segs.map (·.1)) then fails := fails ++ ["segment-numbers-not-consecutive"]
+  -- a segment fetched through a served playlist while the roll-over was under way is byte for byte the
+  -- transport stream of that sequence number: what the same number delivered once the frame was through
+  -- (the S event, which the clauses above and the model judge)
+  for (q, b) in st.fetched.reverse do
+    match segs.find? (·.1 = q) with
+    | none => pure ()
+    | some (_, final) =>
+      if b ≠ final then
+        let cls := if b.length < final.length ∧ final.take b.length = b then "segment-fetched-in-rollover-truncated" else "segment-fetched-in-rollover-differs"
+        if ¬ fails.contains cls then fails := fails ++ [cls]
   if demuxed then
     match IpcHub.HlsSpec.checkExactlyOnce p st.srcs.reverse pes complete with
     | .error e => fails := fails ++ [e]
@@ -190,7 +227,7 @@ def handle : List String → String
                         srIndex := (if a.extSampleRate > 0 then a.extSamplingIndex else a.samplingIndex),
                         chanCfg := a.channelConfig }
           | none => { sps, pps, aot := 0, srIndex := 0, chanCfg := 0 }
-        let st0 : St := { g := some (Hls.initOf cfg), srcs := [], segs := [], durs := [], held := [], corr := none, spec := none, panicked := false }
+        let st0 : St := { g := some (Hls.initOf cfg), srcs := [], segs := [], durs := [], held := [], fetched := [], corr := none, spec := none, panicked := false }
         let st := evs.foldl (step p m frag rate path token) st0
         let complete := evs.any (fun e => match e with | .curBytes _ _ => true | _ => false)
         -- `spec=ok` | `spec=skip` | `spec=fail:<class>,<class>…`
